@@ -100,10 +100,12 @@ package object
 
 // Builtins are only ever called with a context that carries an OS (C12): the precondition is an obligation at
 // every call site under contract (vm.callObject); what a builtin does with it is covered by the module scans.
+// (a builtin may call back into the VM through the context's call function; such calls are assumed to leave the VM's
+// stack pointer where they found it - callFunction's assumed postcondition - so the net effect on it is nil)
 //@ func (Callable).Call
 //@ trusted
 //@ requires[C12.ctx] ctx != nil && hasos(ctx)
-//@ modcomps H_ E_ M G_ C_
+//@ modcomps H_ E_ M G_ C_ -H_vm_VirtualMachine_sp
 
 // ---- C09: lock discipline for the shared type registries -----------------------------------------------------
 // Ghost lock state (assumed contracts of package sync): lock.w(m) / lock.r(m) say that the current goroutine
@@ -169,7 +171,7 @@ package object
 
 // Everything that touches the registries or calls the functions that need the lock must be under contract
 // (so that its lock obligations are generated): listed here.
-//@ scan[C09.registry.users] C09 extcalls github.com/risor-io/risor/object.typeConverters,github.com/risor-io/risor/object.goTypeRegistry,github.com/risor-io/risor/object.getTypeConverter,github.com/risor-io/risor/object.createTypeConverter,github.com/risor-io/risor/object.newGoType,github.com/risor-io/risor/object.newStructConverter,github.com/risor-io/risor/object.(*GoType).GetConverter: (*GoType).GetConverter (*GoType).getConverter (*Proxy).call NewGoType NewTypeConverter SetTypeConverter createTypeConverter getTypeConverter init newArrayConverter newGoField newGoMethod newGoType newMapConverter newPointerConverter newSliceConverter newStructConverter
+//@ scan[C09.registry.users] C09 extcalls github.com/risor-io/risor/object.typeConverters,github.com/risor-io/risor/object.goTypeRegistry,github.com/risor-io/risor/object.getTypeConverter,github.com/risor-io/risor/object.createTypeConverter,github.com/risor-io/risor/object.newGoType,github.com/risor-io/risor/object.newStructConverter,github.com/risor-io/risor/object.(*GoType).GetConverter: (*GoType).GetConverter (*GoType).getConverter (*Proxy).call NewGoType NewTypeConverter SetTypeConverter createTypeConverter getTypeConverter init newArrayConverter newGoField newGoMethod newGoType newMapConverter newMapConverterWithKey newPointerConverter newSliceConverter newStructConverter
 
 // GetConverter takes the lock itself (KF-32 fixed); getConverter is the variant for callers that hold it.
 //@ func (*GoType).GetConverter
@@ -226,7 +228,7 @@ package object
 // Shared metadata objects are immutable once built (they are cached in the registries and used by every VM):
 // converter objects are written only by their constructors; a GoType only while it is being registered
 // (newGoType, under the lock) and by getConverter (under the lock); GoField / GoMethod only by their constructors.
-//@ scan[C09.immutable.MapConverter] C09 fieldwriters MapConverter.*: newMapConverter
+//@ scan[C09.immutable.MapConverter] C09 fieldwriters MapConverter.*: newMapConverter newMapConverterWithKey
 //@ scan[C09.immutable.SliceConverter] C09 fieldwriters SliceConverter.*: newSliceConverter
 //@ scan[C09.immutable.ArrayConverter] C09 fieldwriters ArrayConverter.*: newArrayConverter
 //@ scan[C09.immutable.PointerConverter] C09 fieldwriters PointerConverter.*: newPointerConverter
